@@ -120,6 +120,22 @@ func (p *loginPeer) keyBytes(a string) []byte {
 	return pk1
 }
 
+// capsAnswer: the capabilities the peer grants in its CAPABILITY answer of kind a (nil: the block
+// has a mask of length 0)
+func capsAnswer(a string) (req, res []int) {
+	switch a {
+	case "subset":
+		return []int{1, 2, 3}, []int{4}
+	case "emptyres":
+		return peerReqCaps, nil
+	case "emptyreq":
+		return nil, peerResCaps
+	case "zero":
+		return []int{}, []int{}
+	}
+	return peerReqCaps, peerResCaps
+}
+
 func (p *loginPeer) encode(e absPkg) []byte {
 	switch e.T {
 	case "ack":
@@ -139,8 +155,15 @@ func (p *loginPeer) encode(e absPkg) []byte {
 			switch {
 			case c.dt == 0x38:
 				v := uint32(1)
-				if e.A == "cipher2" {
+				switch e.A {
+				case "cipher2":
 					v = 2
+				case "cipher3":
+					v = 3
+				case "cipher257":
+					v = 257
+				case "cipherneg":
+					v = 0xFFFFFFFF
 				}
 				w.u32(v)
 			case c.dt == 0x26:
@@ -166,7 +189,15 @@ func (p *loginPeer) encode(e absPkg) []byte {
 		if e.A == "zero" {
 			return encCapability([]int{1, 2}, map[int][]byte{1: make([]byte, 14), 2: make([]byte, 7)}).Bytes
 		}
-		return encCapability([]int{1, 2}, map[int][]byte{1: capMask(peerReqCaps), 2: capMask(peerResCaps)}).Bytes
+		req, res := capsAnswer(e.A)
+		m := map[int][]byte{1: {}, 2: {}}
+		if req != nil {
+			m[1] = capMask(req)
+		}
+		if res != nil {
+			m[2] = capMask(res)
+		}
+		return encCapability([]int{1, 2}, m).Bytes
 	case "eed":
 		return randEED(p.rng, e.A == "info").Bytes
 	case "env":
@@ -342,15 +373,25 @@ func runLogin(tr *Tracer, rng *mrand.Rand, scn *loginScn) {
 				}
 				return false
 			}
-			for c := 0; c <= 110; c++ {
-				if conn.Caps.HasRequestCapability(tds.RequestCapability(c)) != in(peerReqCaps, c) {
-					capsOK = false
+			// the capability set must be the one of a CAPABILITY answer the script contains
+			capsOK = false
+			for _, e := range scn.Script {
+				if e.T != "caps" {
+					continue
 				}
-			}
-			for c := 0; c <= 50; c++ {
-				if conn.Caps.HasResponseCapability(tds.ResponseCapability(c)) != in(peerResCaps, c) {
-					capsOK = false
+				req, res := capsAnswer(e.A)
+				same := true
+				for c := 0; c <= 110; c++ {
+					if conn.Caps.HasRequestCapability(tds.RequestCapability(c)) != in(req, c) {
+						same = false
+					}
 				}
+				for c := 0; c <= 50; c++ {
+					if conn.Caps.HasResponseCapability(tds.ResponseCapability(c)) != in(res, c) {
+						same = false
+					}
+				}
+				capsOK = capsOK || same
 			}
 		}()
 	}
